@@ -191,12 +191,13 @@ func BuildQuerySQL(db *gorm.DB) {
 
 							{
 								onStmt := gorm.Statement{Table: tableAliasName, DB: db, Clauses: map[string]clause.Clause{}}
-								for _, c := range relation.FieldSchema.QueryClauses {
-									onStmt.AddClause(c)
-								}
-
+								// add the given conditions first, so that the query clauses (e.g. soft delete) group them
 								if join.On != nil {
 									onStmt.AddClause(join.On)
+								}
+
+								for _, c := range relation.FieldSchema.QueryClauses {
+									onStmt.AddClause(c)
 								}
 
 								if cs, ok := onStmt.Clauses["WHERE"]; ok {
